@@ -331,7 +331,7 @@ func (ex *Exec) applyContract(st *State, i *ssa.Call, f *ssa.Function, fc *FuncC
 		vars[name] = TV{V: args[k+j], Signed: isSigned(sig.Params().At(j).Type())}
 	}
 	pre := st.clone() // snapshot for old()
-	oldEnv := &Env{ex: ex, st: pre, vars: vars, lets: letMap(fc)}
+	oldEnv := &Env{ex: ex, st: pre, vars: vars, lets: letMap(fc), pkg: calleePkg(f)}
 	// spec-run clauses of the callee speak about the run named by (variant, limit) that starts at
 	// the callee's data[0] (unless init=none: then they are relative to the caller's run). They may
 	// be used only when that is the caller's run too: same variant and limit, and, for a callee with
@@ -341,7 +341,9 @@ func (ex *Exec) applyContract(st *State, i *ssa.Call, f *ssa.Function, fc *FuncC
 		if cfg, err := parseSimCfg(fc); err != nil || cfg == nil {
 			simOK = false
 		} else {
-			if cfg.Variant != ex.simVariant || cfg.Limit != ex.simLimit {
+			// a relative contract (init=none) speaks about the caller's run whatever it is; that the
+			// callee's proof covers that run is the business of the property's job list (simAs jobs)
+			if fc.SimOpts["init"] != "none" && (cfg.Variant != ex.simVariant || cfg.Limit != ex.simLimit) {
 				simOK = false
 			}
 			if fc.SimOpts["init"] != "none" {
@@ -362,7 +364,7 @@ func (ex *Exec) applyContract(st *State, i *ssa.Call, f *ssa.Function, fc *FuncC
 		if !active(c) {
 			continue
 		}
-		env := &Env{ex: ex, st: st, vars: vars, lets: letMap(fc), prove: true}
+		env := &Env{ex: ex, st: st, vars: vars, lets: letMap(fc), prove: true, pkg: calleePkg(f)}
 		var hs []*Term
 		var qs []*QFact
 		env.hsink, env.qsink = &hs, &qs
@@ -432,7 +434,7 @@ func (ex *Exec) applyContract(st *State, i *ssa.Call, f *ssa.Function, fc *FuncC
 		if !active(c) {
 			continue
 		}
-		env := &Env{ex: ex, st: st, vars: resVars, lets: letMap(fc), old: oldEnv}
+		env := &Env{ex: ex, st: st, vars: resVars, lets: letMap(fc), old: oldEnv, pkg: calleePkg(f)}
 		var hs []*Term
 		var qs []*QFact
 		env.hsink, env.qsink = &hs, &qs
@@ -617,4 +619,11 @@ func (ex *Exec) wellBehavedHandler(st *State, ev *Event, args []Value, pp, herr 
 	st.ghost["rspos"] = Ite(And(exact, Or(isStr, isArr, isObj)), Sub(ve, I64(1)), I64(-1))
 	st.ghost["rsb"] = closer
 	ev.Info["memberpos"] = p0
+}
+
+func calleePkg(f *ssa.Function) *types.Package {
+	if f != nil && f.Pkg != nil {
+		return f.Pkg.Pkg
+	}
+	return nil
 }
